@@ -12,7 +12,7 @@ import ast
 import re
 from typing import Dict, List, Optional, Set, Tuple
 
-from ..astq import assignments, calls, kwarg, params, stmts
+from ..astq import assignments, calls, kwarg, local_from, local_from_text, params, stmts
 from ..callgraph import fkey
 from ..cfg import CFG, cond_atoms
 from ..report import Check
@@ -64,11 +64,11 @@ def s1(chk: Check, proj: Project, m) -> None:
     ok2 = False
     if loop is not None:
         okf, it = proj.try_fold(m, loop.iter)
-        file_def = [norm(v) for _s, v in assignments(pi, "file_attr") if v is not None]
         var = norm(loop.target)
-        suffix_ok = file_def == [f"f'{{{var}}}_file'"]
+        fav = local_from(pi, lambda v: norm(v) == f"f'{{{var}}}_file'", nested=True)
+        suffix_ok = fav is not None
         raises = [s for s in loop.body if isinstance(s, ast.If) and any(isinstance(r, ast.Raise) for r in s.body)]
-        both = bool(raises) and f"getattr(self, {var}) is not None" in norm(raises[0].test) and "getattr(self, file_attr) is not None" in norm(raises[0].test) and isinstance(raises[0].test, ast.BoolOp) and isinstance(raises[0].test.op, ast.And)
+        both = bool(raises) and f"getattr(self, {var}) is not None" in norm(raises[0].test) and f"getattr(self, {fav}) is not None" in norm(raises[0].test) and isinstance(raises[0].test, ast.BoolOp) and isinstance(raises[0].test.op, ast.And)
         ok2 = okf and set(it) == INLINE and suffix_ok and both
         jumps = [x for x in ast.walk(loop) if isinstance(x, (ast.Break, ast.Return)) or (isinstance(x, ast.Continue))]
         # a `continue` is harmless only if it is not in front of the check of the SAME iteration's later pairs: the
@@ -196,23 +196,30 @@ def s2(chk: Check, proj: Project, m) -> None:
 def s3(chk: Check, proj: Project, m) -> None:
     chk.rule("S3", "Media.extend is handled as True (all bases) / False (none) / otherwise the given classes")
     f = m.func("_get_comp_cls_media")
-    a = assignments(f, "bases")
+    MI = local_from(f, lambda v: isinstance(v, ast.Call) and norm(v.func) == "getattr" and len(v.args) >= 2 and isinstance(v.args[1], ast.Constant) and v.args[1].value == "Media")
+    ME = local_from(f, lambda v: isinstance(v, ast.Call) and norm(v.func) == "getattr" and len(v.args) >= 2 and isinstance(v.args[1], ast.Constant) and v.args[1].value == "extend")
+    BS = local_from(f, lambda v: norm(v).endswith(".__bases__"))
+    if not (MI and ME and BS):
+        chk.undecided("S3", "component_media:_get_comp_cls_media:roles", m.loc(f), "Media / extend / bases variables not identified")
+        return
+    a = assignments(f, BS)
     got = {}
     for s, v in a:
         at = cond_atoms(s)
-        if any(pol and t == "media_extend is True" for t, pol in at):
+        if any(pol and t == f"{ME} is True" for t, pol in at):
             got["True"] = norm(v)
-        elif any(pol and t == "media_extend is False" for t, pol in at):
+        elif any(pol and t == f"{ME} is False" for t, pol in at):
             got["False"] = norm(v)
         else:
             got["other"] = norm(v)
-    ok = got.get("True", "").endswith(".__bases__") and got.get("False") in ("tuple()", "()", "[]") and got.get("other") == "media_extend"
+    ok = got.get("True", "").endswith(".__bases__") and got.get("False") in ("tuple()", "()", "[]") and got.get("other") == ME
     chk.ob("S3", "component_media:_get_comp_cls_media:extend-trichotomy", m.loc(a[0][0]) if a else m.loc(f), ok, f"extend: True -> {got.get('True')}, False -> {got.get('False')}, else -> {got.get('other')}" if ok else f"the extend dispatch is {got}: one of True / False / sequence is not handled")
-    d = assignments(f, "media_extend")
-    okd = len(d) == 1 and norm(d[0][1]) == "getattr(media_input, 'extend', True)"
+    d = assignments(f, ME)
+    okd = len(d) == 1 and norm(d[0][1]) == f"getattr({MI}, 'extend', True)"
     chk.ob("S3", "component_media:_get_comp_cls_media:extend-default-true", m.loc(d[0][0]) if d else m.loc(f), okd, "extend defaults to True")
-    mi = assignments(f, "media_input")
-    okm = len(mi) == 1 and norm(mi[0][1]).startswith("getattr(curr_cls, 'Media'")
+    mi = assignments(f, MI)
+    built = got.get("True", "").rsplit(".__bases__", 1)[0]
+    okm = len(mi) == 1 and norm(mi[0][1]).startswith(f"getattr({built}, 'Media'")
     chk.ob("S3", "component_media:_get_comp_cls_media:own-media", m.loc(mi[0][0]) if mi else m.loc(f), okm, "the class's own Media is read from the class being built")
     # _get_comp_cls_attr walks the MRO of the requested class and resolves each base lazily
     ga = m.func("_get_comp_cls_attr")
